@@ -619,6 +619,8 @@ def monHs (isServer : Bool) (lines : Array String) (cbSpec : String) (statusLine
       if !startOk || !once then out := out ++ ["mon C16 FAIL malformed-request"]
       else if hostLine.contains '@' then out := out ++ ["mon C16 FAIL host-contains-credentials"]
       else pure ()
+    -- the client only starts reading the response after the whole request went out
+    if (reads > 0 || hsOk) && !complete then out := out ++ ["mon C16 FAIL request-truncated"]
     if hsOk then
       match lastComplete with
       | some (_, h) =>
